@@ -426,6 +426,16 @@ func (e *histEnv) labelsBefore(op Op) []string {
 		}
 	}
 	lst := func(p string) fs.FileInfo { fi, _ := os.Lstat(real(p)); return fi }
+	if op.K == "remove" || op.K == "removeall" || op.K == "rename" {
+		// the root of the base itself is removed or moved away (PrefixFS lets Remove("/") unlink the prefix
+		// directory once it is empty): Rollback skips the root ("skip root directory from restoration") and can
+		// then restore nothing below it
+		for _, n := range names {
+			if path.Clean("/"+n) == "/" {
+				add("root-removed")
+			}
+		}
+	}
 	if op.K == "symlink" && !strings.HasPrefix(op.A[0], "/") && strings.Contains(op.A[0], "..") {
 		// a relative target with ".." created below a symlinked parent: the layers check it lexically
 		// from the unresolved link directory, BackupFS hands them the resolved one
@@ -595,7 +605,7 @@ func treeLabels(tree []Entry) []string {
 	return ls
 }
 
-var labelPriority = []string{"relative-name", "through-final-symlink", "rename-nonempty-dir", "link-over-tracked", "dangling-link-parent", "rename-dir-onto-alias", "removeall-above-location", "link-topology", "escaping-link", "unclean-link-target", "rename-onto-dir", "new-link-topology"}
+var labelPriority = []string{"root-removed", "relative-name", "through-final-symlink", "rename-nonempty-dir", "link-over-tracked", "dangling-link-parent", "rename-dir-onto-alias", "removeall-above-location", "link-topology", "escaping-link", "unclean-link-target", "rename-onto-dir", "new-link-topology"}
 
 // knownClass attributes an oracle failure under property prop to a recorded finding class: the first
 // label (in priority order) whose finding is listed for that property in KNOWN_FINDINGS.json; when
@@ -864,7 +874,7 @@ func runHistCase(c *HistCase, prop string) (*caseOut, error) {
 			for _, l := range e.labelsBefore(op) {
 				out.labels[l] = true
 				stepLabels[l] = true
-				if l == "relative-name" || l == "rename-nonempty-dir" {
+				if l == "relative-name" || l == "rename-nonempty-dir" || l == "root-removed" {
 					// aliasing keys / untracked children of a renamed directory stay in the tracking
 					// state for the rest of the case: later operations below the renamed directory
 					// fail in tryBackup (no parent copy in the backup) where the direct call succeeds
@@ -1266,6 +1276,22 @@ func runHistCase(c *HistCase, prop string) (*caseOut, error) {
 		case st.Do == "ext":
 			// C13: an external actor modifies the base or backup directory directly
 			st.Arg = e.resolveExt(st.Arg, i, c.Tree)
+			{
+				sub := e.baseSub
+				if st.Arg[0] == "backup" {
+					sub = e.bakSub
+				}
+				tgt := st.Arg[1]
+				if tgt == "swap" {
+					tgt = st.Arg[2]
+				}
+				if fi, err := os.Stat(e.rc.Root + sub + path.Dir(tgt)); err != nil || !fi.IsDir() {
+					// the directory the other actor would write into is gone (the transaction removed it, the
+					// root included): nothing happens
+					out.count("ext.skipped")
+					continue
+				}
+			}
 			if err := e.applyExt(st.Arg); err != nil {
 				return nil, fmt.Errorf("ext %v: %w", st.Arg, err)
 			}
@@ -1282,6 +1308,21 @@ func runHistCase(c *HistCase, prop string) (*caseOut, error) {
 				originals = nil
 				foreignBackup = true
 				swapped = true
+				// what the other actor deleted together with the directory is not expected to survive
+				drop := func(l []string) []string {
+					var keep []string
+					for k := 0; k+1 < len(l); k += 2 {
+						if l[k] != st.Arg[2] && !strings.HasPrefix(l[k], st.Arg[2]+"/") {
+							keep = append(keep, l[k], l[k+1])
+						}
+					}
+					return keep
+				}
+				if st.Arg[0] == "backup" {
+					planted = drop(planted)
+				} else {
+					plantedBase = drop(plantedBase)
+				}
 				if st.Arg[0] == "backup" {
 					// the backup now aliases the base: Rollback reads a copy through a handle while it removes and
 					// re-creates the very entry behind it; the model's handles are path-keyed (DESIGN 7, "handles
